@@ -79,7 +79,16 @@ CLAIMED["C16"] = dict(
          "Control on every invocation: runtime with critical sections disabled must be flagged.",
     note="The simulated runtime is conforming but is not libgomp; one task runs at a time (interleavings at instrumented-access granularity, no weak-memory effects). Sampling over shapes and schedules.")
 
-NOT_BUILT = {p: "not claimed at this commit: the simulation engine for this property is still under construction (see DESIGN.md section 11)" for p in ["C12", "C15"]}
+CLAIMED["C15"] = dict(
+    engine="thr", level="exploration", design_ref="DESIGN.md section 3, C15",
+    technique="deterministic simulation: 2-16 simulated caller threads (cooperative tasks) drive the thread-safe build under a seeded scheduler that preempts between individual memory accesses; vector-clock happens-before access monitor on the compiler's -fsanitize=thread callbacks; per-thread results compared with solo runs",
+    text="Each run: every thread executes its own seeded sequence of 2-12 library calls (any operation of the table except file I/O and mzd_randomize) on operands it creates itself; first all threads one after the other, "
+         "then under one seeded schedule (random-walk or PCT-style preemption at memory accesses, function entries and heap calls; seeded creation order), finally each sequence solo. Oracles: the monitor, whose only ordering edges are "
+         "thread creation/join and free->malloc, must see no conflicting unordered access anywhere in library code (independent of whether the bad interleaving occurred); every thread's outcome hash equals its solo run; allocations balanced. "
+         "Control on every invocation: the default (non-thread-safe) build under the same workload must be flagged.",
+    note="One task runs at a time (no weak-memory effects); the allocator behind the seam is assumed thread-safe; sampling over workloads and schedules.")
+
+NOT_BUILT = {p: "not claimed at this commit: the simulation engine for this property is still under construction (see DESIGN.md section 11)" for p in ["C12"]}
 
 
 def main():
@@ -108,6 +117,7 @@ def main():
             dict(name="alloc", path="sim/eng/alloc.c", serves_properties=["C14"], kind_free_text="allocation histories against a reference model over the simulated (recycling, dirtying) heap"),
             dict(name="hist", path="sim/eng/hist.c", serves_properties=["C10", "C11"], kind_free_text="same call in several simulated worlds (history, heap content, destination junk); allocator ledger; forked ill-dimensioned calls"),
             dict(name="omp", path="sim/eng/omp.c", serves_properties=["C16"], kind_free_text="real OpenMP build on the simulated runtime/scheduler/monitor of sim/core/sched.c"),
+            dict(name="thr", path="sim/eng/thr.c", serves_properties=["C15"], kind_free_text="simulated caller threads on the thread-safe build; scheduler and HB monitor of sim/core/sched.c"),
             dict(name="fs", path="sim/eng/fs.c", serves_properties=["C18"], kind_free_text="simulated file system and clock under the real PNG/JCF readers and writers; fault enumeration in forked children"),
         ],
         checks=checks,
